@@ -19,6 +19,7 @@ int main() {
     pub.close();                                   // other thread
     bool parked = awt.await_suspend(&wake, nullptr);   // false: closed
     bool got = awt.await_resume();                 // expected: false (closed and drained)
-    printf("first=%d v=%d | ready=%d parked=%d got=%d v=%d position=%zu\n", first, v1, ready, parked, got, sub.value(), sub.position());
-    return got && sub.value() == v1;               // duplicate delivered
+    int v2 = got ? sub.value() : -1;
+    printf("first=%d value=%d | ready=%d parked=%d got=%d value=%d\n", first, v1, ready, parked, got, v2);
+    return got && v2 == v1;                        // duplicate delivered
 }
